@@ -76,8 +76,8 @@ uint64_t true_state(int kind, int idx)
 /* ------------------------------------------------------------------ harness events */
 static void hev_action(void *subject, void *object)
 {
-    (void)object;
-    hevent *h = subject;
+    /* the event's subject is the harness record itself or, object-style, a process the event "belongs to" (then the record is the object) */
+    hevent *h = object ? object : subject;
     const int e = (int)(h - W.hev);
     h->pending = false; h->executed = true; h->done_time = tnow();
     TR2("hev", e, dbits(tnow()));
@@ -87,10 +87,27 @@ static void hev_action(void *subject, void *object)
         }
 }
 
+/* events of the harness that merely name process pp as their subject: they are the application's, not wake-ups of pp */
+uint64_t hev_count_for_subject(const void *pp) { return cmb_event_pattern_count(hev_action, pp, CMB_ANY_OBJECT); }
+
+/* C01 among processes: an event scheduled by the application and cancelled by nobody stays scheduled until it runs */
+void hev_check_vanished(int e)
+{
+    hevent *h = &W.hev[e];
+    if (!h->pending || h->handle == 0 || cmb_event_is_scheduled(h->handle)) return;
+    viol("C01", h->subj_is_proc ? "event-vanished/subject-is-a-process" : "event-vanished",
+         "harness event %d (handle %" PRIu64 ", due t=%g%s) is no longer scheduled at t=%g: it did not run and nobody cancelled it",
+         e, h->handle, h->time, h->subj_is_proc ? ", its subject is a process" : "", tnow());
+    h->pending = false; h->cancelled = true; h->done_time = tnow();
+    for (int i = 0; i < W.np; i++)
+        if (PR[i].op == OP_WAITE && PR[i].obj == e && !PR[i].finished) { cause *c = cause_add(&PR[i], CK_EV, CMB_PROCESS_CANCELLED, tnow(), false); c->ref = e; }
+}
+
 static void hev_cancel(int e)
 {
     hevent *h = &W.hev[e];
     if (h->handle == 0) return;
+    hev_check_vanished(e);
     const bool r = cmb_event_cancel(h->handle);
     TR2("hev-cancel", e, r);
     if (r != h->pending)
@@ -105,13 +122,19 @@ static void hev_cancel(int e)
     }
 }
 
-static void hev_schedule(int e, double t, int64_t prio)
+static void hev_schedule(int e, double t, int64_t prio, int64_t subjsel)
 {
     hevent *h = &W.hev[e];
+    hev_check_vanished(e);
     if (h->pending) return;
     if (!(t >= tnow())) t = tnow();
     memset(h, 0, sizeof *h);
-    h->handle = cmb_event_schedule(hev_action, h, NULL, t, prio);
+    if (subjsel < 0) subjsel = -subjsel;
+    if (subjsel > 0 && W.np > 0 && PR[(subjsel - 1) % W.np].created) {
+        h->handle = cmb_event_schedule(hev_action, PR[(subjsel - 1) % W.np].pp, h, t, prio);
+        h->subj_is_proc = true;
+        PROBE("hev.subject_is_a_process");
+    } else h->handle = cmb_event_schedule(hev_action, h, NULL, t, prio);
     h->pending = true; h->time = t; h->prio = prio;
     TR3("hev-sched", e, dbits(t), prio);
 }
@@ -515,6 +538,7 @@ static void exec_step(proc *pr, const pline *l)
         call_end(pr, ret);
     } else if (pis(l, "WAITE")) {
         const int e = (int)((uint64_t)pa(l, 1) % MAXHEV);
+        hev_check_vanished(e);
         if (!W.hev[e].pending) return;
         call_begin(pr, OP_WAITE, e, 0);
         ret = cmb_process_wait_event(W.hev[e].handle);
@@ -722,7 +746,7 @@ static void exec_step(proc *pr, const pline *l)
         if (W.nguards == 0) return;
         do_gcancel((int)((uint64_t)pa(l, 1) % (uint64_t)W.nguards), (int)((uint64_t)pa(l, 2) % (uint64_t)np), pis(l, "GCAN"));
     } else if (pis(l, "SCHEV")) {
-        hev_schedule((int)((uint64_t)pa(l, 1) % MAXHEV), tnow() + dur_of(pa(l, 2)), prio_of(pa(l, 3)));
+        hev_schedule((int)((uint64_t)pa(l, 1) % MAXHEV), tnow() + dur_of(pa(l, 2)), prio_of(pa(l, 3)), pa(l, 4));
     } else if (pis(l, "CANEV")) {
         hev_cancel((int)((uint64_t)pa(l, 1) % MAXHEV));
     }
@@ -856,7 +880,7 @@ void world_build(const plan *p)
     for (int i = 0; i < p->n; i++) {
         const pline *l = &p->l[i];
         if (!pis(l, "HEV")) continue;
-        hev_schedule((int)((uint64_t)pa(l, 0) % MAXHEV), t0 + dur_of(pa(l, 1)), prio_of(pa(l, 2)));
+        hev_schedule((int)((uint64_t)pa(l, 0) % MAXHEV), t0 + dur_of(pa(l, 1)), prio_of(pa(l, 2)), pa(l, 3));
     }
     for (int i = 0; i < W.np; i++) {
         if (startd[i] < 0) continue;
